@@ -330,6 +330,32 @@ func (c *Ctx) whoMayCall(rule, resource string, verbs []string, allowed map[stri
 		vs[v] = true
 	}
 	n := 0
+	reach := c.G.Reach(c.controllerRoots()...)
+	// a function that did not exist at the pinned commit and whose every caller is an allowed caller (or such a helper
+	// itself): the primitive's call was moved, not added
+	var onlyThrough func(f *types.Func, depth int) (string, bool)
+	onlyThrough = func(f *types.Func, depth int) (string, bool) {
+		if depth > 3 || (c.E.IsPinned != nil && c.E.IsPinned(f)) {
+			return "", false
+		}
+		callers := c.G.Callers(f)
+		if len(callers) == 0 {
+			return "", false
+		}
+		via := ""
+		for _, cl := range callers {
+			if _, ok := allowed[cl.FullName()]; ok {
+				via = cl.Name()
+				continue
+			}
+			v, ok := onlyThrough(cl, depth+1)
+			if !ok {
+				return "", false
+			}
+			via = v
+		}
+		return via, true
+	}
 	for _, s := range c.G.Sites {
 		if s.Resource != resource || !vs[s.Verb] {
 			continue
@@ -338,6 +364,10 @@ func (c *Ctx) whoMayCall(rule, resource string, verbs []string, allowed map[stri
 		name := fmt.Sprintf("%s.%s in %s", s.Resource, s.Verb, s.Fn.FullName())
 		if why, ok := allowed[s.Fn.FullName()]; ok {
 			c.OK(rule, name, s.Call.Pos(), "allowed caller: "+why)
+		} else if reach == nil || !reach[s.Fn] {
+			c.OK(rule, name, s.Call.Pos(), "not reachable from the controller's entry points (sync, the worker, the event handlers)")
+		} else if via, ok := onlyThrough(s.Fn, 0); ok {
+			c.OK(rule, name, s.Call.Pos(), "a helper called only from an allowed caller ("+via+")")
 		} else {
 			c.Bad(rule, name, s.Call.Pos(), fmt.Sprintf("%s.%s is called from %s, which is not an allowed caller of this primitive", s.Resource, s.Verb, s.Fn.FullName()))
 		}
